@@ -719,8 +719,9 @@ impl<W: Word, B: AsRef<[W]> + AsMut<[W]>> BitFieldSliceMut<W> for BitFieldVec<W,
                     }
 
                     let value = read_buffer & mask;
-                    // throw away the bits we just read
-                    read_buffer >>= bit_width;
+                    // throw away the bits we just read (all of them
+                    // if bit_width == W::BITS)
+                    read_buffer = read_buffer.checked_shr(bit_width as u32).unwrap_or(W::ZERO);
                     // apply user func
                     let new_value = f(value);
                     // put the new value in the write buffer
@@ -739,8 +740,9 @@ impl<W: Word, B: AsRef<[W]> + AsMut<[W]>> BitFieldSliceMut<W> for BitFieldVec<W,
             // write the last word if we have some bits left
             while bits_in_buffer < buffer_limit {
                 let value = read_buffer & mask;
-                // throw away the bits we just read
-                read_buffer >>= bit_width;
+                // throw away the bits we just read (all of them if
+                // bit_width == W::BITS)
+                read_buffer = read_buffer.checked_shr(bit_width as u32).unwrap_or(W::ZERO);
                 // apply user func
                 let new_value = f(value);
                 // put the new value in the write buffer
@@ -946,7 +948,8 @@ impl<W: Word, B: AsRef<[W]>> crate::traits::UncheckedIterator
         if self.fill >= bit_width {
             self.fill -= bit_width;
             let res = self.window & self.vec.mask;
-            self.window >>= bit_width;
+            // bit_width might be W::BITS
+            self.window = self.window.checked_shr(bit_width as u32).unwrap_or(W::ZERO);
             return res;
         }
 
@@ -955,7 +958,8 @@ impl<W: Word, B: AsRef<[W]>> crate::traits::UncheckedIterator
         self.window = *self.vec.bits.as_ref().get_unchecked(self.word_index);
         let res = (res | (self.window << self.fill)) & self.vec.mask;
         let used = bit_width - self.fill;
-        self.window >>= used;
+        // used might be W::BITS
+        self.window = self.window.checked_shr(used as u32).unwrap_or(W::ZERO);
         self.fill = W::BITS - used;
         res
     }
@@ -1027,8 +1031,10 @@ impl<W: Word, B: AsRef<[W]>> crate::traits::UncheckedIterator
         self.word_index -= 1;
         self.window = *self.vec.bits.as_ref().get_unchecked(self.word_index);
         let used = bit_width - self.fill;
-        res = ((res << used) | (self.window >> (W::BITS - used))) & self.vec.mask;
-        self.window <<= used;
+        // used might be W::BITS
+        res = (res.checked_shl(used as u32).unwrap_or(W::ZERO) | (self.window >> (W::BITS - used)))
+            & self.vec.mask;
+        self.window = self.window.checked_shl(used as u32).unwrap_or(W::ZERO);
         self.fill = W::BITS - used;
         res
     }
